@@ -170,3 +170,61 @@ def rule_stale_receiver(ctx):
             r.ok(f.qualname, sample={"method": f.qualname, "working copy": tn, "rewriting loops": len(mutating)}, nontrivial=False)
     r.floor(n, 15, "methods rewriting a working copy inside a loop")
     return r
+
+
+def rule_inplace_returns(ctx):
+    r = RuleResult(
+        "inplace-returns",
+        "a method that works on `tn = self if inplace else self.copy()` hands the working network back: a `return tn.<helper>(...)` "
+        "whose helper (resolved through the class hierarchy, all overriding candidates) never returns a value returns None — "
+        "with inplace=False the finished copy is then lost to the caller (the in-place spelling 'works' only because the "
+        "receiver was mutated)",
+    )
+    n = 0
+    for f in ctx.prog.all_functions(nested=False):
+        if f.is_alias or isinstance(f.node, ast.Lambda) or not f.module.name.startswith("quimb.tensor") or "inplace" not in f.params or f.cls is None:
+            continue
+        local = None
+        for a in f.node.body:
+            if isinstance(a, ast.Assign) and isinstance(a.value, ast.IfExp) and isinstance(a.value.test, ast.Name) and a.value.test.id == "inplace" \
+                    and isinstance(a.value.body, ast.Name) and a.value.body.id == "self" and isinstance(a.targets[0], ast.Name):
+                local = a.targets[0].id
+        if local is None:
+            continue
+        rets = [x for x in ast.walk(f.node) if isinstance(x, ast.Return) and isinstance(x.value, ast.Call) and isinstance(x.value.func, ast.Attribute)
+                and isinstance(x.value.func.value, ast.Name) and x.value.func.value.id == local]
+        if not rets:
+            continue
+        for rt in rets:
+            name = rt.value.func.attr
+            cands = [m for m in ([f.cls.find(name)] + [sc.methods.get(name) for sc in f.cls.all_subclasses()]) if m is not None]
+            if not cands:
+                continue
+            n += 1
+            voids = []
+            for m in cands:
+                real = ctx.prog.deref_alias(m)[0] if m.is_alias else m
+                if real is None or isinstance(real.node, ast.Lambda):
+                    continue
+                own_returns = [x for x in _walk_own(real.node) if isinstance(x, ast.Return) and x.value is not None]
+                if not own_returns:
+                    voids.append(real.qualname)
+            construct = f"{f.qualname}->{name}"
+            if voids:
+                r.bad(Finding("inplace-returns", f.qualname,
+                              f"`return {local}.{name}(...)` (line {rt.lineno}) — {voids[0]} never returns a value: the method returns None instead of the network it worked on",
+                              where=f"{f.module.relpath}:{rt.lineno}", operand=name))
+            else:
+                r.ok(construct, nontrivial=False)
+    r.floor(n, 8, "delegating returns of methods with a working copy")
+    return r
+
+
+def _walk_own(node):
+    todo = [node]
+    while todo:
+        x = todo.pop()
+        yield x
+        for c in ast.iter_child_nodes(x):
+            if not isinstance(c, (ast.FunctionDef, ast.AsyncFunctionDef, ast.Lambda)):
+                todo.append(c)
